@@ -5,7 +5,8 @@ From stdpp Require Import gmap.
 From Coq Require Import ZArith.
 From Coq Require Import List.
 From V Require Import Base.Res Base.ResLemmas C16.SatModel C16.SatLemmas C16.Laws C16.LawsLemmas
-  C16.DraModel C16.DraLemmas C16.QuantModel C16.QuantLemmas C16.DraLaws C16.DraLawsLemmas.
+  C16.DraModel C16.DraLemmas C16.QuantModel C16.QuantLemmas C16.DraLaws C16.DraLawsLemmas
+  C16.OrderLemmas C16.FloatMini.
 Open Scope Z_scope.
 
 (* --- saturating integers: for ALL int64 operands the Go body (modelled with
@@ -152,10 +153,55 @@ Theorem C16_qvalue_bounds : forall m,
 Proof. exact qvalue_bounds. Qed.
 Print Assumptions C16_qvalue_bounds.
 
-(* conversion to a Kubernetes quantity and back is the identity on integer amounts *)
-Theorem C16_quantity_roundtrip : forall x, float_of_quantity (quantity_of_float x) = x.
-Proof. exact (fun x => eq_refl). Qed.
-Print Assumptions C16_quantity_roundtrip.
+(* --- ResFloat642Quantity / ResQuantity2Float64 (int64 truncation, milli for cpu / whole units otherwise,
+   Value() rounding away from zero), for every grid g > 0, every amount, both name classes --- *)
+Theorem C16_float_quantity_float : forall g c x, 0 < g ->
+  quantity_to_float g c (float_to_quantity g c x) = g * Z.quot x g.
+Proof. exact float_quantity_float. Qed.
+Print Assumptions C16_float_quantity_float.
+
+Theorem C16_float_quantity_float_id : forall g c x, 0 < g ->
+  (quantity_to_float g c (float_to_quantity g c x) = x <-> (g | x)).
+Proof. exact float_quantity_float_id. Qed.
+Print Assumptions C16_float_quantity_float_id.
+
+Theorem C16_float_quantity_float_bounds : forall g c x, 0 < g ->
+  let y := quantity_to_float g c (float_to_quantity g c x) in
+  (0 <= x -> y <= x < y + g) /\ (x <= 0 -> y - g < x <= y).
+Proof. exact float_quantity_float_bounds. Qed.
+Print Assumptions C16_float_quantity_float_bounds.
+
+Theorem C16_quantity_float_quantity : forall g c m, 0 < g ->
+  float_to_quantity g c (quantity_to_float g c m) = if c then m else 1000 * qvalue m.
+Proof. exact quantity_float_quantity. Qed.
+Print Assumptions C16_quantity_float_quantity.
+
+Theorem C16_quantity_float_quantity_id : forall g c m, 0 < g -> (c = true \/ (1000 | m)) ->
+  float_to_quantity g c (quantity_to_float g c m) = m.
+Proof. exact quantity_float_quantity_id. Qed.
+Print Assumptions C16_quantity_float_quantity_id.
+
+(* --- where TaskInfo.DRAResreq comes from (cache.addDRAResource / buildTaskDRAInfo, after fix 63830d0):
+   the per-class count a pod's device requests add up to is min(MaxInt64, exact sum), and whatever the
+   cache hands to a task has non-negative int64 counts — the hypothesis job_ok of the GetMinDRAResources
+   theorems is discharged from the per-request guarantee of the apiserver --- *)
+Theorem C16_task_dra_count_spec : forall rqs c, Forall ereq_ok rqs ->
+  count_of (add_map_all ∅ rqs !! c) = Z.min max64 (sum_list (class_counts c rqs)) /\
+  0 <= count_of (add_map_all ∅ rqs !! c).
+Proof. exact add_map_all_from_empty. Qed.
+Print Assumptions C16_task_dra_count_spec.
+
+Theorem C16_task_dra_counts_ok : forall claims refs r per,
+  claims_ok claims -> build_task_dra claims refs = BuildOk (Some (r, per)) ->
+  dmap_ok r /\ forall c m, per !! c = Some m -> dmap_ok m.
+Proof. exact build_task_dra_counts_ok. Qed.
+Print Assumptions C16_task_dra_counts_ok.
+
+Theorem C16_job_ok_of_dmap_ok : forall j,
+  (forall t rq, In t (j_tasks j) -> t_req t = Some rq -> dmap_ok rq) ->
+  (forall r n, j_tma j !! r = Some n -> in64 n) -> job_ok j.
+Proof. exact job_ok_of_dmap_ok. Qed.
+Print Assumptions C16_job_ok_of_dmap_ok.
 
 (* --- group laws --- *)
 Theorem C16_add_sub_pointwise : forall r x,
@@ -226,6 +272,76 @@ Theorem C16_le_dim_is_not_gp_dim : forall r rr req,
 Proof. exact le_dim_is_not_gp_dim. Qed.
 Print Assumptions C16_le_dim_is_not_gp_dim.
 
+(* --- partial ("some dimension") vs total comparisons, both conventions, every eps > 0 --- *)
+Theorem C16_less_partly_implies_less_equal_partly : forall eps, 0 < eps -> forall r rr d,
+  less_partly r rr d = true -> less_equal_partly eps r rr d = true.
+Proof. exact less_partly_implies_less_equal_partly. Qed.
+Print Assumptions C16_less_partly_implies_less_equal_partly.
+
+Theorem C16_less_equal_implies_less_equal_partly : forall eps r rr d,
+  less_equal eps r rr d = true -> less_equal_partly eps r rr d = true.
+Proof. exact less_equal_implies_less_equal_partly. Qed.
+Print Assumptions C16_less_equal_implies_less_equal_partly.
+
+Theorem C16_less_implies_less_partly : forall r rr d, less r rr d = true -> less_partly r rr d = true.
+Proof. exact less_implies_less_partly. Qed.
+Print Assumptions C16_less_implies_less_partly.
+
+Theorem C16_not_less_equal_partly_implies_greater : forall eps, 0 < eps -> forall r rr d,
+  less_equal_partly eps r rr d = false -> less rr r d = true.
+Proof. exact not_less_equal_partly_implies_greater. Qed.
+Print Assumptions C16_not_less_equal_partly_implies_greater.
+
+Theorem C16_equal_refl : forall eps, 0 < eps -> forall r, equal eps r r = true.
+Proof. exact equal_refl. Qed.
+Print Assumptions C16_equal_refl.
+
+(* --- Resource.Sub WITH its assertion (panics when rr is not <= r within tolerance) --- *)
+Theorem C16_add_then_sub_assert : forall eps, 0 < eps -> forall r x, nonneg_res r ->
+  exists s, sub_assert eps (add r x) x = SubOk s /\
+            cpu s = cpu r /\ mem s = mem r /\ forall k, sget s k = sget r k.
+Proof. exact add_then_sub_assert. Qed.
+Print Assumptions C16_add_then_sub_assert.
+
+Theorem C16_sub_assert_panics_iff : forall eps, 0 < eps -> forall r rr,
+  sub_assert eps r rr = SubPanic <->
+  cpu r + eps <= cpu rr \/ mem r + eps <= mem rr \/
+  exists k v, scm rr !! k = Some v /\ sget r k + eps <= v.
+Proof. exact sub_assert_panics_iff. Qed.
+Print Assumptions C16_sub_assert_panics_iff.
+
+(* without the non-negativity guard Add-then-Sub panics (r.cpu = -5, x.cpu = 3) *)
+Theorem C16_add_then_sub_assert_refuted : exists r x, sub_assert 2 (add r x) x = SubPanic.
+Proof. exact add_then_sub_assert_refuted. Qed.
+Print Assumptions C16_add_then_sub_assert_refuted.
+
+(* --- float64: the laws above are about exact arithmetic.  On a float64-faithful mini-model (integer-valued
+   binary64, round-to-nearest-even, +-Inf, NaN) they transfer inside the guard [exact] (|values| <= 2^53)
+   and are REFUTED outside it --- *)
+Theorem C16_add_sub_float_guarded : forall x y, exact (x + y) -> exact x ->
+  fsub (fadd (Fin x) (Fin y)) (Fin y) = Fin x.
+Proof. exact add_sub_float_guarded. Qed.
+Print Assumptions C16_add_sub_float_guarded.
+
+Theorem C16_fle_refl_finite : forall eps x, 0 < eps -> fle eps (Fin x) (Fin x) = true.
+Proof. exact fle_refl_finite. Qed.
+Print Assumptions C16_fle_refl_finite.
+
+Theorem C16_add_sub_refuted_two53 :
+  exists x y, fsub (fadd (Fin x) (Fin y)) (Fin y) <> Fin x /\ exact x /\ exact y.
+Proof. exact add_sub_refuted_two53. Qed.
+Print Assumptions C16_add_sub_refuted_two53.
+
+Theorem C16_add_sub_refuted_sentinel :
+  fsub (fadd (Fin 5) (Fin max_float64)) (Fin max_float64) = Fin 0.
+Proof. exact add_sub_refuted_sentinel. Qed.
+Print Assumptions C16_add_sub_refuted_sentinel.
+
+Theorem C16_refl_refuted_two_sentinels :
+  let s := fadd (Fin max_float64) (Fin max_float64) in s = PInf /\ fle 1 s s = false.
+Proof. exact refl_refuted_two_sentinels. Qed.
+Print Assumptions C16_refl_refuted_two_sentinels.
+
 (* --- min / max / diff --- *)
 Theorem C16_diff_decomposes : forall r s inc dec,
   diff_zero r s = (inc, dec) ->
@@ -292,6 +408,44 @@ Theorem C16_law_rt_list_accepts_model : forall rl,
 Proof. exact law_rt_list_model. Qed.
 Print Assumptions C16_law_rt_list_accepts_model.
 
+Theorem C16_law_min_dra_sound : forall j got c,
+  law_min_dra j got = true -> In c (call_classes (contribs j)) ->
+  nonneg_terms (class_terms c (contribs j)) = true ->
+  0 <= count_of (result_at got c) /\
+  count_of (result_at got c) = Z.min max64 (exact_sum (class_terms c (contribs j))).
+Proof. exact law_min_dra_sound. Qed.
+Print Assumptions C16_law_min_dra_sound.
+
+Theorem C16_law_partial_spec : forall a b c d e,
+  law_partial a b c d e = true <->
+  (c = true -> d = true) /\ (b = true -> d = true) /\ (a = true -> c = true) /\ (d = false -> e = true).
+Proof. exact law_partial_spec. Qed.
+Print Assumptions C16_law_partial_spec.
+
+Theorem C16_law_partial_accepts_model : forall eps r rr d, 0 < eps ->
+  law_partial (less r rr d) (less_equal eps r rr d) (less_partly r rr d) (less_equal_partly eps r rr d)
+              (less rr r d) = true.
+Proof. exact law_partial_model. Qed.
+Print Assumptions C16_law_partial_accepts_model.
+
+Theorem C16_law_sub_assert_accepts_model : forall eps r rr,
+  law_sub_assert (match sub_assert eps r rr with SubPanic => true | SubOk _ => false end)
+                 (less_equal eps rr r DZero) = true.
+Proof. exact law_sub_assert_model. Qed.
+Print Assumptions C16_law_sub_assert_accepts_model.
+
+Theorem C16_law_f2q2f_accepts_model : forall g c x mant e, 0 < g ->
+  float_is mant e (Z.quot x g) = true ->
+  law_f2q2f g c x (float_to_quantity g c x) mant e = true.
+Proof. exact law_f2q2f_model. Qed.
+Print Assumptions C16_law_f2q2f_accepts_model.
+
+Theorem C16_law_q2f2q_accepts_model : forall c m mant e,
+  float_is mant e (quantity_to_float 1 c m) = true ->
+  law_q2f2q m c mant e (float_to_quantity 1 c (quantity_to_float 1 c m)) = true.
+Proof. exact law_q2f2q_model. Qed.
+Print Assumptions C16_law_q2f2q_accepts_model.
+
 (* non-vacuity: a concrete vector pair with scalars on one side only meets the
    hypotheses used above *)
 Example C16_nonvacuous :
@@ -325,3 +479,9 @@ Example C16_roundtrip_nonvacuous :
   convert r !! 7%positive = Some 2500 /\ convert r !! 1%positive = Some 3000 /\
   new_resource (convert r) = (r, 3).
 Proof. vm_compute. repeat split; reflexivity. Qed.
+
+Example C16_conv_nonvacuous :
+  conv_domain 1 4007 = true /\ quantity_to_float 1 true (float_to_quantity 1 true 4007) = 4007 /\
+  float_to_quantity 16 true (16 * 4007 + 9) = 4007 /\ quantity_to_float 1 false 2500 = 3 /\
+  float_to_quantity 1 true (quantity_to_float 1 true 4007) = 4007.
+Proof. exact conv_nonvacuous. Qed.
